@@ -98,6 +98,9 @@ def run(prop, tier, seed):
         ("BS", lambda: Operation(CO.NonPolarizingBeamSplitter, eta=0.9), "fock2"),
         ("CX", lambda: Operation(CO.CXPolarization), "pol2"),
         ("Expression", expr_ops(0.37), "fock2"),
+        # custom Fock operators of two different sizes (each is interleaved with the construction of the others)
+        ("FockCustom4", lambda: Operation(FO.Custom, operator=jnp.array(np.diag(np.exp(1j * np.arange(4) * 0.4)))), "fock1"),
+        ("FockCustom5", lambda: Operation(FO.Custom, operator=jnp.array(np.roll(np.eye(5), 1, axis=0).astype(complex))), "fock1"),
     ]
     label_sets = [[(1, "H"), (2, "V")], [(2, "R"), (1, "L")], [(0, "H"), (3, "V")], [(2, "H"), (1, "V")], [(1, "R"), (1, "R")]]
     rounds = 6 if thorough else 3
@@ -123,6 +126,11 @@ def run(prop, tier, seed):
             other = rng.choice(makers)
             msg = ""
             other[1]()
+            if name.startswith("FockCustom"):
+                # ... and always of a custom operator of another size
+                for nm2, mk2, _k2 in makers:
+                    if nm2.startswith("FockCustom") and nm2 != name:
+                        mk2()
             e1 = e2 = None
             try:
                 w1.handles[0].apply_operation(shared, *targets(w1))
